@@ -86,6 +86,29 @@ def plan(tier, seed):
                 alpha = [alpha[i] for i in picks]
             for label, b in alpha:
                 cases.append({"spec": SPEC, "devs": [["led", inst, f["key"], {"hex": b.hex()}]], "label": f"{inst}.{f['key']}={label}"})
+    # array-valued records: the first / last k elements (or all) hold zeros - "unused slot" heuristics must not apply
+    lay = synth.layout("led.platform_position")
+    pos = [f for f in lay.fields if f["key"].startswith("positions[")]
+    for label, sel in (("last 1", range(27, 28)), ("last 5", range(23, 28)), ("last 27", range(1, 28)), ("first 3", range(0, 3)), ("all", range(0, 28)), ("every other", range(0, 28, 2))):
+        for zero in ("0.0", "-0.0", "0.0000000000000E+00"):
+            idx = {f"positions[{k}]." for k in sel}
+            devs = [["led", "platform_position", f["key"], {"hex": zero.rjust(f["w"]).encode().hex()}] for f in pos if any(f["key"].startswith(i) for i in idx)]
+            cases.append({"spec": SPEC, "devs": devs, "label": f"state vectors {label} = {zero}"})
+    for k in (1, 2):
+        devs = []
+        for f in synth.layout("led.attitude_point").fields:
+            if f["kind"] in "IF" and (("attitude_point", f["name"]) not in EXEMPT):
+                devs.append(["led", f"attitude_point[{k - 1}]", f["key"], {"hex": "0".rjust(f["w"]).encode().hex()}])
+        cases.append({"spec": SPEC, "devs": devs, "label": f"attitude point {k} all zero"})
+    # geographic fields at the ends of their domain (a footprint across the antimeridian, the poles)
+    mp = synth.layout("led.map_projection")
+    lons = [f for f in mp.fields if f["key"].endswith("longitude")]
+    lats = [f for f in mp.fields if f["key"].endswith("latitude")]
+    for des in ("UTM-PROJECTION", "UPS-PROJECTION", "LCC-PROJECTION", "MER-PROJECTION"):
+        for lv, lo in (((179.9, -179.8, -179.9, 179.8), "antimeridian"), ((180.0, -180.0, 180.0, -180.0), "+-180"), ((0.0, 359.9, 360.0, 0.1), "0/360"), ((-0.05, 0.05, -0.05, 0.05), "greenwich")):
+            devs = [["led", "map_projection", f["key"], {"hex": f"{lv[i % 4]:.4f}".rjust(f["w"]).encode().hex()}] for i, f in enumerate(lons)]
+            devs += [["led", "map_projection", f["key"], {"hex": f"{(89.9, -89.9, 90.0, -90.0)[i % 4]:.4f}".rjust(f["w"]).encode().hex()}] for i, f in enumerate(lats)]
+            cases.append({"spec": {**SPEC, "level": "3.1" if des[:3] in ("LCC", "MER") else "1.5", "leader": {"n_att": 2, "n_chan": 2, "n_mp": 1, "designator": des}}, "devs": devs, "label": f"{des} longitudes {lo}, latitudes at the poles"})
     # structural variants
     for n_att in (1, 2, 3, 136):
         for n_chan in (1, 2, 16):
